@@ -89,10 +89,28 @@ func (idx *BigIndexWriter) AddRow(values map[string]string) (uint32, error) {
 	return rowID, nil
 }
 
+// Close releases the temporary transaction of a writer that is abandoned without
+// a successful Flush. It is safe to call after Flush.
+func (idx *BigIndexWriter) Close() error {
+	idx.mtx.Lock()
+	defer idx.mtx.Unlock()
+
+	if idx.tempTx == nil {
+		return nil
+	}
+
+	err := idx.tempTx.Rollback()
+	idx.tempTx = nil
+
+	return err
+}
+
 func (idx *BigIndexWriter) Flush() error {
 	if err := idx.tempTx.Commit(); err != nil {
 		return fmt.Errorf("failed to commit: %w", err)
 	}
+
+	idx.tempTx = nil
 
 	verifPoint("big.temp.final")
 
